@@ -296,6 +296,7 @@ static int find_variant(const char* nm) {
 /* undo the op's own effect with raw calls (none allocates); called after the completion was observed */
 static void undo(void) {
   if (req.result < 0) return;
+  if (fd_result && req.result <= 2) return;     /* not a descriptor this request can have opened: leave stdio alone */
   switch (v_id) {
     case 0: close((int) req.result); break;
     case 18: rmdir("m"); break;
